@@ -21,6 +21,17 @@ pub struct Violation {
     pub family: String,
     pub index: usize,
     pub schedule: Vec<usize>,
+    /// everything needed to re-run exactly this case (family-specific)
+    pub data: Value,
+}
+
+/// A single case to re-run (from a replay file or from crash triage).
+#[derive(Clone, Debug)]
+pub struct Replay {
+    pub family: String,
+    pub index: usize,
+    pub schedule: Vec<usize>,
+    pub data: Value,
 }
 
 pub struct Ctx {
@@ -35,7 +46,7 @@ pub struct Ctx {
     pub samples: Vec<Value>,
     pub caps_hit: Vec<String>,
     /// Some(index) when replaying a single case
-    pub replay: Option<(String, usize, Vec<usize>)>,
+    pub replay: Option<Replay>,
     pub machinery_errors: Vec<String>,
 }
 
@@ -98,7 +109,7 @@ impl Ctx {
     pub fn selected(&self, family: &str, index: usize) -> bool {
         match &self.replay {
             None => true,
-            Some((f, i, _)) => f == family && *i == index,
+            Some(r) => r.family == family && r.index == index,
         }
     }
 }
@@ -231,7 +242,7 @@ pub fn finish(mut ctx: Ctx) -> i32 {
             break;
         }
         let mut h: u64 = 1469598103934665603;
-        for b in format!("{}|{}|{}|{:?}", v.family, v.index, v.sig, v.schedule).bytes() {
+        for b in format!("{}|{}|{}|{}|{:?}", v.kind, v.family, v.index, v.sig, v.schedule).bytes() {
             h ^= b as u64;
             h = h.wrapping_mul(1099511628211);
         }
@@ -242,6 +253,7 @@ pub fn finish(mut ctx: Ctx) -> i32 {
             "family": v.family,
             "index": v.index,
             "schedule": v.schedule,
+            "data": v.data,
             "kind": v.kind,
             "site": v.site,
             "input": v.sig,
@@ -320,4 +332,58 @@ pub fn finish(mut ctx: Ctx) -> i32 {
     } else {
         1
     }
+}
+
+// ---------------------------------------------------------------------------------------------
+// Progress slots: each worker thread records the case it is about to run, so that a process
+// abort (stack overflow, allocation failure) or a hang can be attributed to a case by the
+// supervisor, which then re-runs the candidates alone to confirm.
+
+use std::cell::RefCell;
+use std::sync::atomic::{AtomicUsize, Ordering};
+
+static SLOT_COUNTER: AtomicUsize = AtomicUsize::new(0);
+
+thread_local! {
+    static SLOT: RefCell<Option<std::fs::File>> = RefCell::new(None);
+}
+
+pub fn progress(family: &str, index: usize, data: &Value) {
+    let dir = match std::env::var("PVMC_PROGRESS") {
+        Ok(d) => d,
+        Err(_) => return,
+    };
+    SLOT.with(|s| {
+        let mut s = s.borrow_mut();
+        if s.is_none() {
+            let n = SLOT_COUNTER.fetch_add(1, Ordering::SeqCst);
+            *s = std::fs::File::create(format!("{}/slot-{}", dir, n)).ok();
+        }
+        if let Some(f) = s.as_ref() {
+            use std::os::unix::fs::FileExt;
+            let line = format!("{}\t{}\t{}\n", family, index, data);
+            let _ = f.write_all_at(line.as_bytes(), 0);
+        }
+    });
+}
+
+pub fn read_progress(dir: &str) -> Vec<Replay> {
+    let mut out: Vec<Replay> = vec![];
+    if let Ok(rd) = std::fs::read_dir(dir) {
+        for e in rd.flatten() {
+            if let Ok(text) = std::fs::read_to_string(e.path()) {
+                if let Some(line) = text.lines().next() {
+                    let parts: Vec<&str> = line.splitn(3, '\t').collect();
+                    if parts.len() == 3 {
+                        if let (Ok(index), Ok(data)) = (parts[1].parse::<usize>(), serde_json::from_str::<Value>(parts[2])) {
+                            if !out.iter().any(|r| r.family == parts[0] && r.index == index && r.data == data) {
+                                out.push(Replay { family: parts[0].to_string(), index, schedule: vec![], data });
+                            }
+                        }
+                    }
+                }
+            }
+        }
+    }
+    out
 }
